@@ -180,6 +180,10 @@ class RequestHandlerBase(MethodView):
             if ev_opts.duration < 0:
                 raise ValueError(
                     f'{name} duration must not be negative: {ev_opts.duration}')
+            if ev_opts.start < 0 and not ev_opts.inband:
+                # Event@presentationTime of an MPD event is an unsigned number
+                raise ValueError(
+                    f'{name} start must not be negative: {ev_opts.start}')
             if ev_opts.version not in {0, 1}:
                 # the versions of the emsg box
                 raise ValueError(f'{name} version must be 0 or 1: {ev_opts.version}')
